@@ -49,7 +49,14 @@ type rtMsg struct {
 	UList []rtU    `json:"ulist,omitempty"`
 	// relay conn chain
 	Src, SrcMode, PName, PVer, SName string
-	RPaths                         []string
+	RPaths                           []string
+	// earlier route requests / responses of the same peer (the paths they carry are stored)
+	Pre []rtPre `json:"pre,omitempty"`
+}
+
+type rtPre struct {
+	H string `json:"h"` // routetab.req | routetab.resp
+	M rtMsg  `json:"m"`
 }
 
 func pbPaths(ps []rtPath) (out []*rpb.Path) {
@@ -98,6 +105,10 @@ func rtFrames(h string, c *Case) ([][]byte, *rtMsg) {
 	}
 	var m rtMsg
 	_ = json.Unmarshal(c.Msg, &m)
+	return [][]byte{frame(rtMarshal(h, &m))}, &m
+}
+
+func rtMarshal(h string, m *rtMsg) []byte {
 	var b []byte
 	switch h {
 	case "routetab.req":
@@ -116,7 +127,7 @@ func rtFrames(h string, c *Case) ([][]byte, *rtMsg) {
 		}
 		b, _ = proto.Marshal(&rpb.UnderlayResp{Dest: unhex(u.Dest), Underlay: unhex(u.U), Signature: unhex(u.S)})
 	}
-	return [][]byte{frame(b)}, &m
+	return b
 }
 
 func runRoutetabIn(h, stream string) func(e *env, c *Case) Obs {
@@ -129,6 +140,16 @@ func runRoutetabIn(h, stream string) func(e *env, c *Case) Obs {
 			a, err := e.net().ab.Get(d)
 			orc["inbook"] = err == nil && a != nil
 			orc["isconn"] = e.net().kad.ConnectedPeers().Exists(d)
+		}
+		if m != nil {
+			for pi := range m.Pre {
+				p := &m.Pre[pi]
+				st := map[string]string{"routetab.req": "onRouteReq", "routetab.resp": "onRouteResp"}[p.H]
+				pr := driveInbound(svc.Protocol(), st, e.peer.overlay, false, [][]byte{frame(rtMarshal(p.H, &p.M))}, 30*time.Second)
+				if pr.panicked || pr.hang {
+					return Obs{Panic: pr.panicked, PMsg: pr.pmsg, Hang: pr.hang, Where: "handler(pre:" + p.H + ")"}
+				}
+			}
 		}
 		res := driveInbound(svc.Protocol(), stream, e.peer.overlay, false, chunks, 30*time.Second)
 		return Obs{Panic: res.panicked, PMsg: res.pmsg, Hang: res.hang, Where: "handler", Err: errBit(res.err), Orc: orc}
@@ -185,6 +206,9 @@ func coqRoutetab(h string) func(c *Case, o *Obs) (string, bool) {
 		}
 		n, _ := idents()
 		inBook, isConn := o.Orc["inbook"], o.Orc["isconn"]
+		if len(m.Pre) > 0 && (h == "routetab.connchain" || h == "routetab.underlay") {
+			return "", true // a stored route / learnt underlay changes the outcome: oracle only
+		}
 		switch h {
 		case "routetab.req":
 			return hx.CoqApp("CRtReq", coqHB(n.overlay.Bytes()), coqHB(unhex(m.Dest)), coqPaths(m.Paths), hx.CoqN(uint64(len(m.UList))), coqOutcome(o)), true
@@ -252,6 +276,25 @@ func genRoutetab(run *hx.Run, add func(*Case)) {
 	}
 	for _, uv := range uVariants {
 		mk("routetab.findunderlay", "underlay-reply", &rtMsg{UList: uv})
+	}
+	// ---- SEQUENCES: paths whose items have mixed lengths (0, 1, 31, 32, 33 bytes; short ones prefixes of the long one)
+	// are stored by a first request / response; later messages of the same peer look those routes up
+	long := append(append([]byte{}, n.overlay.Bytes()[:1]...), r.Bytes(32)...)
+	its := []string{hx.Hex(long[:32]), hx.Hex(long[:1]), hx.Hex(long[:31]), hx.Hex(long), ""}
+	nb := hx.Hex(conn[0].Bytes()) // a connected peer as the last item = next hop
+	mixedPaths := []rtPath{{Sign: "aa", Bodys: []string{"01"}, Items: append(append([]string{}, its...), nb)}, {Items: []string{its[1], its[0], peer}},
+		{Items: []string{its[4], its[1]}}, {Items: []string{its[0], its[3], its[2], nb}}}
+	pres := [][]rtPre{{{H: "routetab.req", M: rtMsg{Dest: self, Paths: mixedPaths[:1]}}}, {{H: "routetab.resp", M: rtMsg{Dest: its[0], Paths: mixedPaths}}},
+		{{H: "routetab.req", M: rtMsg{Dest: peer, Paths: mixedPaths[1:3]}}, {H: "routetab.resp", M: rtMsg{Dest: its[1], Paths: mixedPaths[3:]}}}}
+	for _, pre := range pres {
+		for i, d := range its {
+			if !run.Thorough() && i > 1 && r.Intn(2) != 0 {
+				continue
+			}
+			mk("routetab.req", "mixed-length-paths-then-route-request", &rtMsg{Dest: d, Alpha: 2, UType: int32(r.Intn(2)), Paths: []rtPath{{Items: []string{peer}}}, Pre: pre})
+			mk("routetab.resp", "mixed-length-paths-then-route-response", &rtMsg{Dest: d, Paths: []rtPath{{Items: []string{its[r.Intn(5)], peer}}}, Pre: pre})
+			mk("routetab.connchain", "mixed-length-paths-then-relay", &rtMsg{Dest: d, Src: peer, SrcMode: "01", PName: "x", PVer: "1", SName: "s", RPaths: []string{its[1]}, Pre: pre})
+		}
 	}
 	type rawdef struct {
 		h     string
